@@ -998,7 +998,7 @@ class manage_payloads_trio:
         n = c.n_events()
         tok = z3.Const("the_trio_token", Z.Val)
         return {
-            "token-of-this-run-published-once": self._trio_token.t == tok,
+            "token-of-this-run-published-once": c.And(self._trio_token.t == tok, self._trio_token != None),
             "channel-published": self._submit_tasks != None,
             "readiness-announced-after-publishing": c.And(ev_kind(c, 0, "open_memory_channel"), Event.e_a(c.event_at(0)) == self._submit_tasks.t,
                                                           ev_kind(c, 1, "call_soon_threadsafe"), Event.e_a(c.event_at(1)) == self.asyncio_loop.t),
